@@ -365,6 +365,10 @@ class PassWorld(World):
                 if m == "union" and len(args) == 1 and isinstance(args[0], MSet):
                     return Iter(list(MSet(recv.items + args[0].items).items))
                 raise Unsupported("set method " + m)
+            if (isinstance(recv, Iter) or (isinstance(recv, tuple) and recv and recv[0] == "L")) and m == "collect" and not e["args"] and "Vec" in str(e.get("turbofish") or "") and "Option" not in str(e.get("turbofish") or "") and "Result" not in str(e.get("turbofish") or ""):
+                sk_ = Sink()
+                sk_.items = recv.rest() if isinstance(recv, Iter) else list(recv[1])
+                return sk_
             if isinstance(recv, Iter) and m == "collect" and not e["args"] and any(t_ in str(e.get("turbofish") or "") for t_ in SET_TYPES):
                 items_ = recv.rest()
                 if "Option<" in str(e.get("turbofish") or "").replace(" ", ""):
@@ -438,6 +442,16 @@ class PassWorld(World):
                 if m == "reverse" and not args:
                     recv.items.reverse()
                     return ("T", ())
+                if m in ("sort", "sort_unstable") and not args:
+                    if all(isinstance(x, int) for x in recv.items):
+                        recv.items.sort()
+                        return ("T", ())
+                    raise Unsupported("sort of non-integers")
+                if m == "try_into" and not args:
+                    # (the repository's only fallible conversion of a vector is into a NonEmptyVec)
+                    return S("Ok", recv) if recv.items else S("Err", O("empty-vector"))
+                if m == "into" and not args:
+                    return recv
                 if m == "push" and len(args) == 1:
                     recv.items.append(args[0])
                     return ("T", ())
@@ -556,6 +570,12 @@ class PassWorld(World):
                 raise Unsupported("iterator method " + m)
             if isinstance(recv, tuple) and recv and recv[0] == "L" and m in ("to_vec", "to_owned", "clone", "as_slice") and not e["args"]:
                 return recv
+            if isinstance(recv, tuple) and recv and recv[0] == "L" and m in ("sort", "sort_unstable") and not e["args"]:
+                r_ = strip(e["recv"])
+                if r_["k"] == "Path" and r_["path"] in env and all(isinstance(x, int) for x in recv[1]):
+                    env[r_["path"]] = ("L", tuple(sorted(recv[1])))  # a list value is immutable: rebind the variable
+                    return ("T", ())
+                raise Unsupported("sort of a list that is not a plain variable of integers")
             if isinstance(recv, tuple) and recv and recv[0] == "L" and m == "contains" and len(e["args"]) == 1:
                 a = self.eval(e["args"][0], env, uses)
                 if isinstance(a, tuple) and a and a[0] in ("O", "K"):
@@ -607,6 +627,14 @@ class PassWorld(World):
                 for k_ in env:
                     if k_ in env2:
                         env[k_] = env2[k_]
+        if k == "Range":
+            lo = self.eval(e["from"], env, uses) if e.get("from") is not None else None
+            hi = self.eval(e["to"], env, uses) if e.get("to") is not None else None
+            if isinstance(lo, int) and isinstance(hi, int) and not isinstance(lo, bool):
+                if e.get("inclusive") or e.get("limits") == "..=":
+                    hi += 1
+                return ("L", tuple(range(lo, hi)))
+            raise Unsupported("range with unknown bounds")
         if k in ("While", "Loop"):
             rounds = 0
             while True:
